@@ -63,8 +63,13 @@ def halfpow_by_label(letters, items):
 
 
 def small_exp(letters, items):
-    f = S.val_base(2, 0)(letters, items)
-    return lambda lab: float(int(f(lab)) % 3)
+    """small whole exponents that differ under every swap of two dimensions' positions (weights 1, 2, 3, 5, 7 mod 4)"""
+    w = {"a": 1, "b": 2, "c": 3, "d": 5, "e": 7}
+
+    def f(lab):
+        return float(sum(w[l] * items[l].index(it) for l, it in zip(letters, lab)) % 4)
+
+    return f
 
 
 def sub_dim(letter, items, order):
@@ -302,6 +307,35 @@ def ops_catalogue():
         return FlodymArray.from_df(dims=tgt, df=df, allow_missing_values=True, allow_extra_values=True)
 
     add("from_df(items-only, nested item sets, both flags)", dict(T=("abc", VZ)), nested_frame, lambda L: tuple(L["T"]))
+
+    def frame_without_single_item_dims(P, it):
+        # a frame that leaves out TWO single-item dimensions (names in the opposite alphabetical order of the letters)
+        from flodym import Dimension, DimensionSet, FlodymArray
+
+        L = P["T"].dims.letters
+        its = {"a": ["only zone"], "b": ["only alpha"], "c": ["c1", "c2", "c3"]}
+        nm = {"a": "Zone", "b": "Alpha", "c": "Beta"}
+        import pandas as pd
+
+        df = pd.DataFrame({"Beta": ["c2", "c3", "c1"], "value": [20.5, 30.5, 10.5]})
+        tgt = DimensionSet(dim_list=[Dimension(name=nm[l], letter=l, items=its[l]) for l in L])
+        return FlodymArray.from_df(dims=tgt, df=df)
+
+    add("from_df(frame without two single-item dimensions)", dict(T=("abc", VZ)), frame_without_single_item_dims, lambda L: tuple(L["T"]))
+
+    def superset_ctor(P, it):
+        # alternative constructor: the new array has the REQUESTED dimension order, whatever order the superset stores
+        from flodym import FlodymArray, Parameter
+
+        sup = P["T"].dims
+        v = np.array([[100.0 * (1 + ic) + (1 + ia) for ia in range(len(it["a"]))] for ic in range(len(it["c"]))])
+        x1 = FlodymArray.from_dims_superset(dims_superset=sup, dim_letters=("c", "a"), values=v)
+        x2 = Parameter.from_dims_superset(sup, ("c", "a"), values=v.copy(), name="par")
+        if tuple(x2.dims.letters) != tuple(x1.dims.letters) or not np.array_equal(x1.values, x2.values):
+            raise AssertionError("FlodymArray.from_dims_superset and Parameter.from_dims_superset disagree")
+        return x1
+
+    add("from_dims_superset(superset, (c, a), values)", dict(T=("abcd", VZ)), superset_ctor, lambda L: ("c", "a"))
 
     def stack(P, it):
         from flodym.flodym_array_helper import flodym_array_stack
